@@ -210,9 +210,19 @@ func scanFile(w *world, pa *purity, p *packages.Package, f *ast.File, add func(t
 				}
 			}
 		case *ast.SelectorExpr:
+			// a zone-dependent method of a time.Time that is not visibly in UTC (time.Unix(..) yields the process's local zone):
+			// what it renders depends on TZ / /etc/localtime of the process
+			if tt := info.TypeOf(n.X); tt != nil && tt.String() == "time.Time" && zoneDependent[n.Sel.Name] && !visiblyUTC(n.X) {
+				add(n.Pos(), fname, "ProcessEnvironment")
+			}
 			if id, ok := n.X.(*ast.Ident); ok {
 				if pn, ok := info.Uses[id].(*types.PkgName); ok {
 					ip := pn.Imported().Path()
+					if (ip == "time" && (n.Sel.Name == "Local" || n.Sel.Name == "LoadLocation")) ||
+						(ip == "os" && (n.Sel.Name == "Getenv" || n.Sel.Name == "LookupEnv" || n.Sel.Name == "Environ" || n.Sel.Name == "Hostname" ||
+							n.Sel.Name == "Getpid" || n.Sel.Name == "Getwd")) || (ip == "runtime" && (n.Sel.Name == "NumCPU" || n.Sel.Name == "GOMAXPROCS" || n.Sel.Name == "NumGoroutine")) {
+						add(n.Pos(), fname, "ProcessEnvironment")
+					}
 					if isRandPkg(ip) {
 						add(n.Pos(), fname, "RandUse")
 					}
@@ -974,4 +984,30 @@ func (pa *purity) rangeBuildsSetOnly(p *packages.Package, encl *ast.FuncDecl, rs
 		}
 	}
 	return true
+}
+
+// methods of time.Time whose result depends on the Location of the value
+var zoneDependent = map[string]bool{"Format": true, "String": true, "Local": true, "Zone": true, "Location": true, "Date": true, "Clock": true,
+	"Year": true, "Month": true, "Day": true, "Hour": true, "Minute": true, "Weekday": true, "YearDay": true, "ISOWeek": true,
+	"MarshalJSON": true, "MarshalText": true, "GoString": true, "AppendFormat": true}
+
+// visiblyUTC: x.UTC(), ctx.BlockTime() (the SDK stores header times in UTC), ...BlockHeader().Time
+func visiblyUTC(e ast.Expr) bool {
+	switch x := e.(type) {
+	case *ast.ParenExpr:
+		return visiblyUTC(x.X)
+	case *ast.CallExpr:
+		if s, ok := x.Fun.(*ast.SelectorExpr); ok && (s.Sel.Name == "UTC" || s.Sel.Name == "BlockTime") {
+			return true
+		}
+	case *ast.SelectorExpr:
+		if x.Sel.Name == "Time" {
+			if c, ok := x.X.(*ast.CallExpr); ok {
+				if s, ok := c.Fun.(*ast.SelectorExpr); ok && s.Sel.Name == "BlockHeader" {
+					return true
+				}
+			}
+		}
+	}
+	return false
 }
